@@ -1,10 +1,13 @@
 package main
 
+// schedBuf2: the read buffer holds 2 events, so a pre-history's hits reach the policy.
+var schedBuf2 = Build{Kind: "sched", Consts: map[string]string{"buffer.go:capacity": "2"}}
+
 func init() {
 	register(&Check{
 		ID: "C20", Level: "model_checking", Engine: "E1-ICB", DesignRef: "DESIGN.md §4 C20, §3.1",
 		Technique: "stateless model checking of the real Store under a controlled scheduler (iterative preemption bounding)",
-		LevelText: "every schedule (preemption bound 2, all non-preemptive switches, select tie-breaks) of 7 drivers with 2-3 concurrent waiters/writers (three of them with another user of the policy lock: a goroutine polling EstimatedSize, the expiry tick) on the real instrumented Store is executed; each Wait must return and, at the instant it returns, every write that completed before it was called must have been applied (positive evidence: a stored value the map still holds is tracked by the policy, a Delete's victim has been notified; at the end map and policy describe the same entries); the right level because the property quantifies over marker positions relative to batch boundaries, which only a scheduler-controlled run can enumerate",
+		LevelText: "every schedule (preemption bound 2, all non-preemptive switches, select tie-breaks) of 9 drivers with 2-3 concurrent waiters/writers (three of them with another user of the policy lock: a goroutine polling EstimatedSize, the expiry tick; two with a cost-growing Set that forces evictions out of the protected region) on the real instrumented Store is executed; each Wait must return and, at the instant it returns, every write that completed before it was called must have been applied (positive evidence: a stored value the map still holds is tracked by the policy, a Delete's victim has been notified; at the end map and policy describe the same entries); the right level because the property quantifies over marker positions relative to batch boundaries, which only a scheduler-controlled run can enumerate",
 		LevelNote: "trusted: the instrumenter (imports/channel syntax -> vrt shims) and the vrt models of Mutex/RWMutex/channels/Pool; bounded: <=3 clients, <=4 ops each, queue capacity 2-4, batch size 2, 4 and 8, preemptions <=2 (thorough 3)",
 		Rule:      "stateless DFS over schedules of the instrumented store (every lock/atomic/channel operation a scheduling point), iterative preemption bound; an outcome = per-waiter set of applied writes + hung clients; distinct outcomes counted per driver",
 		Assume:    []string{"sequentially consistent interleavings of the shimmed operations (exact for race-free Go)", "lock/channel/pool models of vrt stand in for the Go runtime's", "small scope: 2-3 clients, <=4 ops each, queue capacity 2-4, batch size 2/4/8"},
@@ -16,6 +19,8 @@ func init() {
 			{Name: "C20/W5-size-poller", Build: sched, Pkg: "internal", Test: "TestVerif_C20", Params: "driver=W5-size-poller,P=2", Shards: 4, BudgetS: 60},
 			{Name: "C20/W6-tick", Build: sched, Pkg: "internal", Test: "TestVerif_C20", Params: "driver=W6-tick,P=2", Shards: 4, BudgetS: 60},
 			{Name: "C20/W7-size-poller-b8", Build: sched, Pkg: "internal", Test: "TestVerif_C20", Params: "driver=W7-size-poller-b8,P=2", Shards: 4, BudgetS: 60},
+			{Name: "C20/W8-cost-growth", Build: schedBuf2, Pkg: "internal", Test: "TestVerif_C20", Params: "driver=W8-cost-growth,P=2", Shards: 4, BudgetS: 60},
+			{Name: "C20/W8b-cost-growth-3", Build: schedBuf2, Pkg: "internal", Test: "TestVerif_C20", Params: "driver=W8b-cost-growth-3,P=2", Shards: 4, BudgetS: 60},
 		},
 		Thorough: []Scenario{
 			{Name: "C20/W1-two-waiters", Build: sched, Pkg: "internal", Test: "TestVerif_C20", Params: "driver=W1-two-waiters,P=3,D=2", Shards: 16, BudgetS: 600},
@@ -25,6 +30,8 @@ func init() {
 			{Name: "C20/W5-size-poller", Build: sched, Pkg: "internal", Test: "TestVerif_C20", Params: "driver=W5-size-poller,P=3,D=2", Shards: 16, BudgetS: 600},
 			{Name: "C20/W6-tick", Build: sched, Pkg: "internal", Test: "TestVerif_C20", Params: "driver=W6-tick,P=3,D=2", Shards: 16, BudgetS: 600},
 			{Name: "C20/W7-size-poller-b8", Build: sched, Pkg: "internal", Test: "TestVerif_C20", Params: "driver=W7-size-poller-b8,P=3,D=2", Shards: 16, BudgetS: 600},
+			{Name: "C20/W8-cost-growth", Build: schedBuf2, Pkg: "internal", Test: "TestVerif_C20", Params: "driver=W8-cost-growth,P=3,D=2", Shards: 16, BudgetS: 600},
+			{Name: "C20/W8b-cost-growth-3", Build: schedBuf2, Pkg: "internal", Test: "TestVerif_C20", Params: "driver=W8b-cost-growth-3,P=3,D=2", Shards: 16, BudgetS: 600},
 		},
 	})
 }
